@@ -24,6 +24,7 @@ type c09Params struct {
 	Overlap  bool          // senders start while the registration lines are still in flight
 	Pings    int           // server PINGs arriving meanwhile (answered by the built-in handler)
 	HPong    bool          // the foreground handler sends a PONG of its own between its first and second line
+	Quit     bool          // sender 0 says QUIT after its lines (the server goes on reading and does not hang up): everything queued before it is still written
 	Timeout0 bool          // Config.Timeout = 0 ("wait indefinitely")
 	Pause    time.Duration // > 0: the server does not read at all for this long after the registration (longer than any Config.Timeout), then reads everything
 	SrvErr   bool          // the server sends an ERROR line (and keeps the connection open) while the senders are at work
@@ -39,6 +40,9 @@ func (p c09Params) name() string {
 	}
 	if p.Timeout0 {
 		n += "/timeout=0"
+	}
+	if p.Quit {
+		n += "/then-quit"
 	}
 	if p.Pause > 0 {
 		n += fmt.Sprintf("/server-pause=%s", p.Pause)
@@ -62,12 +66,15 @@ func c09Scenario(p c09Params) *explore.Scenario {
 	sc := &explore.Scenario{
 		Family: "sendorder",
 		Name:   p.name(),
-		Params: map[string]interface{}{"senders": p.Senders, "lines": p.Lines, "events": p.Events, "hlines": p.HLines, "slow": p.Slow, "chancap": p.ChanCap, "overlap": p.Overlap, "pings": p.Pings, "hpong": p.HPong, "server_error": p.SrvErr, "timeout0": p.Timeout0, "pause": p.Pause.String()},
+		Params: map[string]interface{}{"senders": p.Senders, "lines": p.Lines, "events": p.Events, "hlines": p.HLines, "slow": p.Slow, "chancap": p.ChanCap, "overlap": p.Overlap, "pings": p.Pings, "hpong": p.HPong, "server_error": p.SrvErr, "timeout0": p.Timeout0, "pause": p.Pause.String(), "quit": p.Quit},
 		Opt:    vx.Options{ChanCap: p.ChanCap, MaxSteps: 40000, Horizon: 24 * time.Hour},
 	}
 	total := 2 + p.Senders*p.Lines + p.Events*p.HLines + p.Pings
 	if p.HPong {
 		total += p.Events
+	}
+	if p.Quit {
+		total++
 	}
 	sc.Main = func(env *vx.Env) {
 		c := NewClient("me", func(cfg *client.Config) {
@@ -126,6 +133,9 @@ func c09Scenario(p c09Params) *explore.Scenario {
 					} else {
 						c.Privmsg("#c", c09Text(fmt.Sprintf("u%d", s), i))
 					}
+				}
+				if p.Quit && s == 0 {
+					c.Quit("done for today")
 				}
 				done.Add(1)
 			})
@@ -187,6 +197,9 @@ func c09Scenario(p c09Params) *explore.Scenario {
 		}
 		for i := 0; i < p.Pings; i++ {
 			want[fmt.Sprintf("PONG :p%d", i)]++
+		}
+		if p.Quit {
+			want["QUIT :done for today"]++
 		}
 		if p.HPong {
 			for e := 0; e < p.Events; e++ {
@@ -728,7 +741,7 @@ func init() {
 	}
 	Register(&Prop{
 		ID:   "C09",
-		Rule: "2-3 concurrent user senders x 1-3 lines (alternating Raw / Privmsg), optionally a foreground handler answering 1-2 incoming events with 1-2 lines, server reading at once or through a 64-byte pipe drained line by line by a server task, queue capacity 32 / 2 / 1, senders started after or during registration; 2-4 concurrent senders of messages that SplitLen = 60 splits into 3-4 lines each (Privmsg, Notice, Ctcp, CtcpReply to different targets, mixed or all senders using the same method after a warm-up message; expected lines = what the same calls produce alone); one sender with Raw lines of every length 1..1300 and around 2048 / 4096 / 8192 bytes compared byte for byte, plus lines that begin / end in or consist of white space, lines with bytes that are not UTF-8, and the empty line; a server ERROR line that is not followed by a hang-up; Config.Timeout = 0; a server that stops reading for five virtual minutes (longer than Config.Timeout) while senders are up to 40 lines ahead of it; two senders with one message each under statement-granularity interleaving of package client (seven method pairs, K<=2, no state cache), and two clients in one process with one line each under the same interleaving; small harnesses are explored without any deviation bound (state cache), the rest within K<=2-3; distinct = distinct wire transcripts per scenario",
+		Rule: "2-3 concurrent user senders x 1-3 lines (alternating Raw / Privmsg), optionally a foreground handler answering 1-2 incoming events with 1-2 lines, server reading at once or through a 64-byte pipe drained line by line by a server task, queue capacity 32 / 2 / 1, senders started after or during registration; 2-4 concurrent senders of messages that SplitLen = 60 splits into 3-4 lines each (Privmsg, Notice, Ctcp, CtcpReply to different targets, mixed or all senders using the same method after a warm-up message; expected lines = what the same calls produce alone); one sender with Raw lines of every length 1..1300 and around 2048 / 4096 / 8192 bytes compared byte for byte, plus lines that begin / end in or consist of white space, lines with bytes that are not UTF-8, and the empty line; a server ERROR line that is not followed by a hang-up; Config.Timeout = 0; QUIT said by a sender while its and other senders' lines are still queued (the server does not hang up); a server that stops reading for five virtual minutes (longer than Config.Timeout) while senders are up to 40 lines ahead of it; two senders with one message each under statement-granularity interleaving of package client (seven method pairs, K<=2, no state cache), and two clients in one process with one line each under the same interleaving; small harnesses are explored without any deviation bound (state cache), the rest within K<=2-3; distinct = distinct wire transcripts per scenario",
 		Assumptions: []string{
 			"interleavings at synchronisation/channel/socket granularity (DESIGN.md 3.8)",
 			"unbounded mode relies on the happens-before state cache; cache-on/off agreement is cross-checked at a small bound",
@@ -762,6 +775,9 @@ func init() {
 			add(c09Params{Senders: 2, Lines: 2, Timeout0: true}, b2, []int{1, 2, 3}, 60, false)
 			add(c09Params{Senders: 2, Lines: 2, Timeout0: true, Slow: true, ChanCap: 1}, b2, []int{1, 2, 3}, 60, false)
 			add(c09Params{Senders: 1, Lines: 40, Pause: 5 * time.Minute}, []explore.Budget{{0, 0}, {1, 0}}, []int{1, 2, 3}, 80, false)
+			// QUIT said while lines are still queued, to a server that goes on reading and does not hang up
+			add(c09Params{Senders: 2, Lines: 3, Quit: true, Slow: true, ChanCap: 2}, b2, []int{1, 2, 3}, 60, false)
+			add(c09Params{Senders: 1, Lines: 40, Quit: true, Pause: 5 * time.Minute}, []explore.Budget{{0, 0}}, []int{1, 2, 3}, 80, false)
 			add(c09Params{Senders: 2, Lines: 3, Pause: 5 * time.Minute, ChanCap: 2, Events: 1, HLines: 2}, b2, []int{1, 2, 3}, 60, false)
 			bs := b2
 			if tier == "thorough" {
